@@ -8,11 +8,14 @@
    alone. `read_mmap` is laspy.mmap, `mmap_set` an assignment of one element through the mapped record array,
    `mmap_set_dim` the assignment of a whole dimension (Model/Access.v). `laid_out f rh`: f is a string of bytes whose header
    parses to rh, uncompressed, all announced points present; `truncated f rh n`: cut after n < point_count whole records;
-   `evlrs_adjacent rh`: the first EVLR starts right after the last point; `needs_evlrs rh`: a 1.4 header that announces EVLRs. *)
+   `evlrs_adjacent rh`: the first EVLR starts right after the last point (every file laspy writes); `evlrs_after_points rh`:
+   it starts there or later — bytes may lie in between (waveform packets, padding): a source that cannot seek reads and drops
+   them (`skip_gap`, the loop of LasReader.read; the gap expression is translated from the source: gen_evlr_gap);
+   `needs_evlrs rh`: a 1.4 header that announces EVLRs. *)
 From Coq Require Import String.
 From Coq Require Import ZArith List Bool.
 From LasV Require Import Lib.Base Lib.Layout Gen.GenFormatBits Gen.GenAccess Model.Las Model.LasSpec Model.Access
-  Proofs.AccessProofs Proofs.AccessSimProofs.
+  Proofs.AccessProofs Proofs.AccessSimProofs Proofs.AccessShortProofs.
 Import ListNotations.
 Open Scope list_scope.
 Open Scope Z_scope.
@@ -21,18 +24,37 @@ Open Scope Z_scope.
    whose seekable() answers False; a stream that offers only read(); a stream without readinto), whether EVLRs are loaded
    at opening or deferred to read(), however the reader is consumed before read() (not at all, chunk iterators,
    read_points): the same header, VLRs, EVLRs and records (or the same error). Files with zero points included. *)
-Theorem C17_independent : forall f rh c c' e e' steps steps', laid_out f rh -> evlrs_adjacent rh ->
+Theorem C17_independent : forall f rh c c' e e' steps steps', laid_out f rh -> evlrs_after_points rh ->
   fst (read_via c e steps f) = fst (read_via c' e' steps' f).
-Proof. exact access_path_independent. Qed.
+Proof. exact access_path_independent_gap. Qed.
 Print Assumptions C17_independent.
 
 (* ... and that common result is what the file model's reader (the one of the round-trip property C01) reads. A source
-   that can seek does not need the EVLRs to be adjacent: with a gap after the last point the seek-based path is used,
-   also when the loading was deferred to read(). *)
-Theorem C17_reads_the_file : forall c e steps f rh, laid_out f rh -> (can_seek c = true \/ evlrs_adjacent rh) ->
+   that can seek finds the EVLRs wherever the header says (also when the loading was deferred to read()); one that cannot
+   finds them when they start at or after the end of the points: with a gap after the last point, the gap is read and dropped. *)
+Theorem C17_reads_the_file : forall c e steps f rh, laid_out f rh -> (can_seek c = true \/ evlrs_after_points rh) ->
   fst (read_via c e steps f) = read_file f.
-Proof. exact read_via_spec. Qed.
+Proof. exact read_via_spec_gap. Qed.
 Print Assumptions C17_reads_the_file.
+
+(* adjacent EVLRs (what laspy writes) are the case without a gap *)
+Theorem C17_adjacent_is_after_points : forall rh, evlrs_adjacent rh -> evlrs_after_points rh.
+Proof. exact adjacent_after_points. Qed.
+Print Assumptions C17_adjacent_is_after_points.
+
+(* the gap is the expression found in the source; the skipping loop drops min(gap, what is left) bytes and nothing else, and
+   never needs a third turn on a source that gives the bytes it is asked for (more fuel changes nothing) *)
+Theorem C17_gap_expression : forall evstart offset count psize,
+  gen_evlr_gap evstart offset count psize = evstart - (offset + count * psize).
+Proof. exact gap_expression. Qed.
+Print Assumptions C17_gap_expression.
+
+Theorem C17_gap_skipped : forall k gap s, 0 <= st_pos s ->
+  skip_gap (skip_fuel + k) gap s = skip_gap skip_fuel gap s
+  /\ st_bytes (skip_gap skip_fuel gap s) = st_bytes s
+  /\ avail (skip_gap skip_fuel gap s) = skipn (Z.to_nat gap) (avail s).
+Proof. exact gap_skipped. Qed.
+Print Assumptions C17_gap_skipped.
 
 (* zero points: the header and the EVLRs come through every path, no record *)
 Theorem C17_zero_points : forall f rh c e steps, laid_out f rh -> evlrs_adjacent rh -> h_count rh <= 0 ->
@@ -76,7 +98,7 @@ Print Assumptions C17_default_arguments.
 (* a source that offers read() and NOTHING else (no seekable, no readinto, no seek, no tell) reads the same header, VLRs,
    EVLRs and records as every other source, and read() is all that was ever called on it, also when the reader is not read
    to the end ... *)
-Theorem C17_bare_source_reads_the_file : forall c e steps f rh, laid_out f rh -> evlrs_adjacent rh ->
+Theorem C17_bare_source_reads_the_file : forall c e steps f rh, laid_out f rh -> evlrs_after_points rh ->
   c_has_seekable c = false -> c_readinto c = false ->
   fst (read_via c e steps f) = read_file f /\ only_reads (snd (read_via c e steps f)) = true
   /\ only_reads (snd (consume_via c e steps f)) = true.
@@ -139,6 +161,11 @@ Theorem C17_mmap_same : forall f rh c e steps, laid_out f rh -> evlrs_adjacent r
 Proof. exact mmap_same_as_streams. Qed.
 Print Assumptions C17_mmap_same.
 
+Theorem C17_mmap_same_with_gap : forall f rh c e steps, laid_out f rh -> evlrs_after_points rh ->
+  (h_minor rh >= 4 -> h_nev rh > 0 -> h_evstart rh <= len f) -> read_mmap f = fst (read_via c e steps f).
+Proof. exact mmap_same_as_streams_gap. Qed.
+Print Assumptions C17_mmap_same_with_gap.
+
 Theorem C17_mmap_reads_the_file : forall f rh, laid_out f rh ->
   (h_minor rh >= 4 -> h_nev rh > 0 -> h_evstart rh <= len f) -> read_mmap f = read_file f.
 Proof. exact read_mmap_spec. Qed.
@@ -195,6 +222,41 @@ Theorem C17_written_files_are_laid_out : forall ap h vl fmt recs evl f h',
 Proof. exact written_files_laid_out. Qed.
 Print Assumptions C17_written_files_are_laid_out.
 
+(* SHORT COUNTS. Every theorem above is about sources whose read(n) / readinto(n bytes) give the n bytes when they are
+   there — what `s_read` / `s_readinto` say, and what the source as it is relies on: each read site makes ONE call (the
+   shapes below). A raw stream, a socket, an unbuffered pipe may give fewer bytes in one call although more are left
+   (`s_read_short cap n`: at most cap >= 1 bytes). A call that is not capped below what is asked IS the call of the model: *)
+Theorem C17_full_count_call : forall cap n s, n <= cap \/ n < 0 ->
+  s_read_short cap n s = s_read n s /\ (0 <= n -> s_readinto_short cap n s = s_readinto n s).
+Proof. exact full_count_call. Qed.
+Print Assumptions C17_full_count_call.
+
+(* ... a capped call gives a proper prefix of it: cap bytes, fewer than the complete call gives — one call per read
+   site is not enough on such a source (the failing-input search runs such sources and reports what the library does) *)
+Theorem C17_short_count_call_is_a_prefix : forall cap n s, 0 <= st_pos s -> 1 <= cap < n -> cap < len (avail s) ->
+  fst (s_read_short cap n s) = firstn (Z.to_nat cap) (fst (s_read n s))
+  /\ len (fst (s_read_short cap n s)) = cap /\ cap < len (fst (s_read n s))
+  /\ fst (s_readinto_short cap n s) = fst (s_read_short cap n s).
+Proof. exact short_call_is_a_prefix. Qed.
+Print Assumptions C17_short_count_call_is_a_prefix.
+
+(* ... and asking again for what is missing until the n bytes are there or a call gives nothing (`read_exact`), whatever
+   the successive calls are able to give (caps: any list, values below 1 count as 1), gives exactly what the ONE call of
+   the model gives: the same bytes, the same position, through read or readinto calls only (no seek, no tell, nothing else).
+   FULL STATEMENT (not proved): for every schedule of caps, the reader obtained from `read_via` by replacing every s_read /
+   s_readinto by read_exact returns fst (read_via c e steps src) — hence, by the theorems above, the same through every
+   source, short counts or not. Proved here: the replacement is sound at each read site (same bytes, same position, same
+   byte string behind, calls of the two allowed kinds only); missing: the induction over the read sites of read_via, which
+   needs a second copy of the model (the source as it is has no such loop to follow). *)
+Theorem C17_short_counts_partial : forall into caps n s, 0 <= n -> 0 <= st_pos s ->
+  let r := read_exact into caps n s in
+  fst r = fst (s_read n s) /\ st_pos (snd r) = st_pos (snd (s_read n s)) /\ st_bytes (snd r) = st_bytes s
+  /\ avail (snd r) = avail (snd (s_read n s))
+  /\ exists ext, st_log (snd r) = st_log s ++ ext /\ forallb is_read_call ext = true /\ no_seek_tell ext = true
+       /\ (into = false -> only_reads ext = true).
+Proof. exact exact_read_ignores_short_counts. Qed.
+Print Assumptions C17_short_counts_partial.
+
 (* the shapes of the source the hand-written model follows, as found by the translator in the current source:
    two reads in _prefetch_header_data, the signature, six reads per EVLR, the three-way source normalisation of open_las,
    the default of read_evlrs, and the statement shapes of LasHeader.read_evlrs / read_from (the capability asked through
@@ -213,7 +275,8 @@ Print Assumptions C17_source_shapes.
    these calls; through a stream that offers only read(): the same result and the same calls without the query; what a
    seekable source is asked; what laspy.open alone shows through a non-seekable and a seekable source; a reader that is
    only iterated (read_points(1) then a chunk iterator) has handed out both records and still shows no EVLRs; the file cut
-   after its first record reads one record through a bare source; a whole-dimension assignment through the map *)
+   after its first record reads one record through a bare source; a whole-dimension assignment through the map; the same
+   file with a gap of five bytes before its EVLR through a source that cannot seek; a short-count call and the ask-again loop *)
 Example C17_nonvacuous :
   laid_out sample_file sample_header /\ evlrs_adjacent sample_header
   /\ fst (read_via (mkCaps false false true) false [SChunks 1] sample_file) = read_file sample_file
@@ -235,7 +298,15 @@ Example C17_nonvacuous :
   /\ (match fst (read_via (mkCaps false false false) true [SChunks 2] (firstn 405 sample_file)) with
       | Ok lf => length (lf_points lf) = 1%nat | Err _ => False end)
   /\ (match read_file (mmap_set_dim sample_file 375 30 12 [[1; 2]; [3; 4]]) with
-      | Ok lf => map (fun r => firstn 2 (skipn 12 r)) (lf_points lf) = [[1; 2]; [3; 4]] | Err _ => False end).
+      | Ok lf => map (fun r => firstn 2 (skipn 12 r)) (lf_points lf) = [[1; 2]; [3; 4]] | Err _ => False end)
+  /\ (let g := write_at (firstn 435 sample_file ++ [9; 9; 9; 9; 9] ++ skipn 435 sample_file) 235 [184; 1; 0; 0; 0; 0; 0; 0] in
+      (* the same file with five bytes between the last point and the EVLR: a source that cannot seek reads and drops them *)
+      read_via (mkCaps false false true) false [] g
+      = (read_file g, [ORead 227; ORead 148; ORead 60; OSeekable; ORead 5; ORead 2; ORead 16; ORead 2; ORead 8; ORead 32; ORead 3])
+      /\ (match read_file g with Ok lf => option_map (@length vlr) (rh_evlrs (lf_h lf)) = Some 1%nat | Err _ => False end))
+  /\ len (fst (s_readinto_short 7 60 (mkSt sample_file 375 []))) = 7
+  /\ read_exact true [7; 1; 40] 60 (mkSt sample_file 375 [])
+     = (fst (s_readinto 60 (mkSt sample_file 375 [])), mkSt sample_file 435 [OReadInto 60; OReadInto 53; OReadInto 52; OReadInto 12]).
 Proof.
   split; [exact (proj1 sample_laid_out)|]. split; [exact (proj2 sample_laid_out)|].
   vm_compute. repeat split; intro; discriminate.
